@@ -941,7 +941,15 @@ def run(ctx, rep):
             for c in ast.walk(fn):
                 if isinstance(c, ast.Call) and self_attr(c.func) == 'eigen' and c.args:
                     ne += 1
-                    normalised = any(isinstance(x, ast.BinOp) and isinstance(x.op, ast.Div) for e_ in _bs(c.args[0], defs_) for x in ast.walk(e_))
+                    sl_ = _bs(c.args[0], defs_)
+                    normalised = any(isinstance(x, ast.BinOp) and isinstance(x.op, ast.Div) for e_ in sl_ for x in ast.walk(e_))
+                    if not normalised and isinstance(cl_, ast.ClassDef):
+                        # the division may live in a method of the class that hands back the normalised matrix
+                        for x in [y for e_ in sl_ for y in ast.walk(e_) if isinstance(y, ast.Call) and self_attr(y.func)]:
+                            ci_ = ctx.classes.find(f"{mname}.{cl_.name}")
+                            r_ = ci_.resolve(x.func.attr) if ci_ is not None else None
+                            if r_ is not None and any(isinstance(z, ast.BinOp) and isinstance(z.op, ast.Div) for z in ast.walk(r_[1])):
+                                normalised = True
                     rep.check('C04.N', f"{mname.split('.')[-1]}::{scope}::eigen-of-the-normalised-matrix", normalised, where(m, c), {'argument': norm_text(c.args[0])[:80]},
                               f"{scope} decomposes `{norm_text(c.args[0])[:60]}`, a matrix that was not divided by the normalisation −Σπ_iQ_ii: P(t) built from it runs at the raw "
                               f"rate of the table (WAG: 5.7 % too fast) — exp(Qt) of a matrix that is not scaled to one substitution per unit time")
